@@ -118,7 +118,14 @@ def wsdl_text(d, split=False):
         schema_file = f'<xsd:schema xmlns:xsd="{XSD}" xmlns:tns="{tns}" targetNamespace="{tns}" elementFormDefault="qualified">{"".join(els)}</xsd:schema>'
         types = f'<types><xsd:schema><xsd:import namespace="{tns}" schemaLocation="types.xsd"/></xsd:schema></types>'
     else:
-        types = f'<types><xsd:schema targetNamespace="{tns}" elementFormDefault="qualified">{"".join(els)}</xsd:schema></types>'
+        hdr = [e for e in els if 'name="Auth"' in e or 'name="Audit"' in e]
+        if d.get("hdrForm") == "unqualified" and d.get("types", "inline") == "inline" and hdr:
+            # two inline schemas: the first says elementFormDefault="qualified", the second (header elements) says nothing
+            rest_els = [e for e in els if e not in hdr]
+            types = (f'<types><xsd:schema targetNamespace="{tns}" elementFormDefault="qualified">{"".join(rest_els)}</xsd:schema>'
+                     f'<xsd:schema targetNamespace="{tns}">{"".join(hdr)}</xsd:schema></types>')
+        else:
+            types = f'<types><xsd:schema targetNamespace="{tns}" elementFormDefault="qualified">{"".join(els)}</xsd:schema></types>'
     return (
         f'<definitions xmlns="http://schemas.xmlsoap.org/wsdl/" xmlns:soap="http://schemas.xmlsoap.org/wsdl/soap/" xmlns:tns="{tns}" xmlns:xsd="{XSD}" '
         f'targetNamespace="{tns}" name="Svc">{types}'
